@@ -31,7 +31,7 @@ def det_runs(prop, tier, n):
 
 def evidence_info(prop, tier):
   return {
-      'rule': 'run = one sample stream (structure, features, scale, offset, '
+      'rule': 'run = one sample stream (structure incl. leaves of different feature rank, features, scale, offset, '
               'constant column, integer leaf) + one delivery schedule (cuts, '
               'batch axes, permutation, integer weights 0..4, devices, jit) from '
               'the run PRNG; distinct = distinct genome hash; non-trivial = >= 2 '
@@ -47,7 +47,8 @@ def evidence_info(prop, tier):
                           'zero_weight_device', 'reorder', 'two_axes',
                           'clip_min_active', 'clip_max_active',
                           'constant_column', 'int_leaf', 'sharded_pmap',
-                          'sharded_vmap', 'roundtrip_checked'],
+                          'sharded_vmap', 'roundtrip_checked',
+                          'mixed_feature_rank'],
       'assumptions': [
           'total weight of the first batch is positive',
           'max_abs_value=None (clipping of normalised values is not in the '
@@ -109,7 +110,11 @@ def generate(prop, tier, seed, run):
     smax = r.choice([1e6, scale * 0.8, scale * 3.0])
     if smax < smin:
       smin, smax = smax, smin
-  return {'F': F, 'struct': struct, 'scale': scale, 'offset': offset,
+  # leaves of different feature rank (one dict leaf carries (1, k) features):
+  # drawn last so that all earlier draws keep their values. Added after seeded
+  # change c18-04 (weights expanded to the rank of the first leaf).
+  mixed = r.choice(['', 'a', 'b']) if struct == 'dict' else ''
+  return {'F': F, 'struct': struct, 'mixed_rank': mixed, 'scale': scale, 'offset': offset,
           'const_col': const_col, 'data_seed': r.randint(0, 2**31 - 1),
           'deliveries': deliveries, 'D': D, 'reorder': reorder,
           'perm_rows': perm_rows, 'std_min': smin, 'std_max': smax,
@@ -118,12 +123,17 @@ def generate(prop, tier, seed, run):
 
 # ------------------------------------------------------------------ execution
 
-def _pack(struct, x, ints, F):
+def _pack(struct, x, ints, F, mixed=''):
   if struct == 'arr':
     return x
   k = max(1, F // 2)
   if struct == 'dict' or ints is None:
-    return {'a': x[..., :k], 'b': x[..., k:]} if F > 1 else {'a': x}
+    if F == 1:
+      return {'a': x}
+    d = {'a': x[..., :k], 'b': x[..., k:]}
+    if mixed:   # this leaf has matrix features of shape (1, k)
+      d[mixed] = d[mixed][..., None, :]
+    return d
   return {'a': x, 'n': ints}
 
 
@@ -137,7 +147,20 @@ def execute(g, ctx):
   dt = np.float64 if x64 else np.float32
   tol = 1e-9 if x64 else 2e-4
   F, D, struct = g['F'], g['D'], g['struct']
-  sig = f"{struct}/{'x64' if x64 else 'f32'}/D{D}"
+  mixed = g.get('mixed_rank', '') if (struct == 'dict' and F > 1) else ''
+  sig = f"{struct}{'+rank_' + mixed if mixed else ''}/{'x64' if x64 else 'f32'}/D{D}"
+  if mixed:
+    ctx.probe('mixed_feature_rank')
+
+  def unmix(d):
+    """{'a','b'} of statistics / data -> the two leaves with the (1, k) leaf
+    squeezed back to (k,) (only the feature axis -2 of that leaf, which must be 1)"""
+    a, b = np.asarray(d['a']), np.asarray(d['b'])
+    if mixed == 'a':
+      a = np.squeeze(a, -2)
+    elif mixed == 'b':
+      b = np.squeeze(b, -2)
+    return a, b
   rng = np.random.default_rng(g['data_seed'])
   N = sum(d['n'] for d in g['deliveries'])
   data = np.asarray(g['offset']) + g['scale'] * rng.normal(size=(N, F))
@@ -167,7 +190,7 @@ def execute(g, ctx):
   smin, smax = g['std_min'], g['std_max']
 
   ref_nest = _pack(struct, jnp.zeros((F,), dt),
-                   jnp.zeros((2,), jnp.int32) if has_int else None, F)
+                   jnp.zeros((2,), jnp.int32) if has_int else None, F, mixed)
   with ctx.under_test('raises', 0, sig + '/init_state'):
     st = rs.init_state(ref_nest)
   if ctx.violations:
@@ -232,7 +255,7 @@ def execute(g, ctx):
       ctx.fault('sharded_pmap')
     elif via == 'vmap':
       ctx.fault('sharded_vmap')
-    batch = _pack(struct, jnp.asarray(bx), jnp.asarray(bi) if has_int else None, F)
+    batch = _pack(struct, jnp.asarray(bx), jnp.asarray(bi) if has_int else None, F, mixed)
     ctx.log.inp('update', [bx, bw if bw is not None else 0])
     f = get_fn(via, w is not None)
     with ctx.under_test('raises', step, sig + '/update'):
@@ -279,8 +302,8 @@ def execute(g, ctx):
         elif has_int or F == 1:
           gm, gs = pick(sn.mean['a']), pick(sn.std['a'])
         else:
-          gm = np.concatenate([pick(sn.mean['a']), pick(sn.mean['b'])], -1)
-          gs = np.concatenate([pick(sn.std['a']), pick(sn.std['b'])], -1)
+          gm = np.concatenate(unmix({k: pick(v) for k, v in sn.mean.items()}), -1)
+          gs = np.concatenate(unmix({k: pick(v) for k, v in sn.std.items()}), -1)
       except (ValueError, IndexError, KeyError) as e:
         ctx.violate('mean', step, sig, {
             'device': dev, 'what': 'statistics have the wrong structure',
@@ -343,7 +366,7 @@ def execute(g, ctx):
     elif has_int:
       fl = bk['a']
     elif F > 1:
-      fl = np.concatenate([bk['a'], bk['b']], axis=-1)
+      fl = np.concatenate(unmix(bk), axis=-1)
     else:
       fl = bk['a']
     err = np.abs(fl.astype(np.float64) - bx).max() / ref_scale
@@ -401,6 +424,8 @@ def shrink_candidates(g, oracle):
       c = dict(g)
       c['deliveries'] = ds[:i] + [dict(d, axes=1)] + ds[i + 1:]
       yield c
+  if g.get('mixed_rank'):
+    yield dict(g, mixed_rank='')
   if g['struct'] != 'arr':
     yield dict(g, struct='arr')
   if g['const_col'] >= 0:
